@@ -95,7 +95,7 @@ def prepare(case):
 def judge(case, acc):
     u0 = prepare(case)
     s0 = snap(u0)
-    if mon_graph._polluted(s0) or invariants(s0):
+    if mon_graph._polluted(s0) or any(p_ == 'C01' for p_, _, _ in invariants(s0)):
         acc.count('skipped_broken_state')
         return
     for kind in case['kinds']:
@@ -112,6 +112,32 @@ def _judge_one(case, kind, wi, acc):
     for _once in (1,):
         members = list(w.tasks)
         if not members:
+            # an empty WBS (or an empty selection) still has to carry the public attributes of the WBS
+            wa = tuple(sorted((k, repr(v)) for k, v in w.__dict__.items() if not k.startswith('_') and k in graph.CUSTOM_NAMES))
+            if kind == 'subtree' and case.get('sel_form') not in (None, 'list'):
+                continue
+            acc.ev()
+            acc.count('empty_copies')
+            try:
+                c0 = w.clone() if kind == 'clone' else w.subtree([])
+            except Exception as e:
+                acc.violation(f'C10/{kind}-raised-{type(e).__name__}/empty', f'{kind} of an empty WBS/selection raised {type(e).__name__}: {str(e)[:80]}', dict(case, kinds=[kind], only_wbs=wi))
+                continue
+            ca = tuple(sorted((k, repr(v)) for k, v in c0.__dict__.items() if not k.startswith('_') and k in graph.CUSTOM_NAMES))
+            if ca != wa or list(c0.tasks):
+                acc.violation(f'C10/{kind}/wbs-attributes/empty', f'{kind} of an empty WBS/selection: attributes {ca} vs source {wa}, tasks {len(list(c0.tasks))}', dict(case, kinds=[kind], only_wbs=wi))
+            continue
+        if kind == 'subtree' and case.get('empty_selection'):
+            acc.ev()
+            acc.count('empty_copies')
+            wa = tuple(sorted((k, repr(v)) for k, v in w.__dict__.items() if not k.startswith('_') and k in graph.CUSTOM_NAMES))
+            try:
+                c0 = w.subtree([])
+                ca = tuple(sorted((k, repr(v)) for k, v in c0.__dict__.items() if not k.startswith('_') and k in graph.CUSTOM_NAMES))
+                if ca != wa or list(c0.tasks):
+                    acc.violation('C10/subtree/wbs-attributes/empty', f'subtree([]) : attributes {ca} vs source {wa}, tasks {len(list(c0.tasks))}', dict(case, kinds=[kind], only_wbs=wi))
+            except Exception as e:
+                acc.violation(f'C10/subtree-raised-{type(e).__name__}/empty', f'subtree([]) raised {type(e).__name__}: {str(e)[:80]}', dict(case, kinds=[kind], only_wbs=wi))
             continue
         mid = {id(t) for t in members}
         ext = sum(1 for t in members for p in list(t.predecessors) + list(t.successors) if id(p) not in mid)
@@ -286,10 +312,17 @@ def gen_case(rnd, tier='quick'):
         except Exception:
             pass
         s = snap(u)
+    if n >= 4 and rnd.random() < 0.15:
+        # a member linked to a task deep inside a branch that is then removed: the link now leaves the WBS
+        labs = [f't{k}' for k in range(n)]
+        r_, a_, b_, c_ = labs[:4]
+        ops = [['append', ['w', 'w0'], r_], ['append', ['w', 'w0'], a_], ['append', ['t', a_], b_], ['append', ['t', b_], c_],
+               rnd.choice([['preds=', r_, [c_], 'list'], ['succs=', r_, [c_], 'list'], ['preds=', r_, [b_, c_], 'list']]),
+               rnd.choice([['wbs.remove', 'w0', a_], ['lremove', ['w', 'w0'], a_], ['children=', ['w', 'w0'], [r_], 'list']])] + ops[:6]
     tail = [[rnd.choice(TAIL_OPS), rnd.randrange(50), rnd.randrange(50)] for _ in range(rnd.randint(4, 8))]
     return {'kind': 'clone', 'spec': spec, 'attrs': attrs, 'wattrs': wattrs, 'ops': ops, 'kinds': ['clone', 'subtree'],
             'sel': [[rnd.randrange(50) for _ in range(rnd.randint(1, 3))] for _ in range(3)], 'sel_as_list': rnd.random() < 0.7, 'tail': tail,
-            'sel_form': rnd.choice([None, None, 'list', 'tuple', 'generator', 'filter', 'tasklist'])}
+            'sel_form': rnd.choice([None, None, 'list', 'tuple', 'generator', 'filter', 'tasklist']), 'empty_selection': rnd.random() < 0.08}
 
 
 def run_shard(prop, tier, seed, shard, nshards, budget, acc):
